@@ -1,10 +1,20 @@
 import LazyDs.Model.Trace
+import LazyDs.Lemmas.TraceLemmas
 /-
-  C08 — evaluation is demand-driven (placeholder theorems; the full list is proved in this file by
-  the end of the round).
+  C08 — evaluation is demand-driven: nothing runs early, nothing runs twice.
+
+  All statements are about the chunked-trace semantics of `LazyDs/Model/Trace.lean`: `t.logAfter k`
+  is the list of user-function calls that have been performed once the consumer holds `k` results,
+  `t.fullLog` the calls of a complete iteration.  "The arguments stage `sid` was applied to" is
+  written `(log.filter (·.stage == sid)).map (·.arg)`.  The freshness hypothesis
+  `∀ c ∈ (cs.map (·.1)).flatten ++ tl, c.stage ≠ sid` says that the stage identifier `sid` is not used
+  by a stage further up the pipeline (the harness numbers the stages of a pipeline apart).
+  Helper lemmas: `LazyDs/Lemmas/TraceLemmas.lean`.
 -/
 namespace LazyDs
 open Trace
+
+/-! ## 1. What has run after `k` results is a prefix of what runs at all -/
 
 /-- consuming `k` results performs a prefix of the calls of the whole iteration -/
 theorem C08_prefix (t : TStream) (k : Nat) : t.logAfter k <+: t.fullLog := by
@@ -15,5 +25,330 @@ theorem C08_prefix (t : TStream) (k : Nat) : t.logAfter k <+: t.fullLog := by
     simp only [List.map_append, List.flatten_append]
     exact List.prefix_append _ _
   exact List.IsPrefix.trans h (List.prefix_append _ _)
+
+example : (iterT menuEnv (.map 7 (.add 1) (.src [.int 1, .int 2, .int 3]))).logAfter 2
+    = [⟨7, .int 1⟩, ⟨7, .int 2⟩] := rfl
+example : (iterT menuEnv (.map 7 (.add 1) (.src [.int 1, .int 2, .int 3]))).fullLog
+    = [⟨7, .int 1⟩, ⟨7, .int 2⟩, ⟨7, .int 3⟩] := rfl
+
+/-- consuming more results only ever extends the log: work done for the first `k` results is never redone
+    or reordered by asking for more -/
+theorem C08_logAfter_mono (t : TStream) {k k' : Nat} (h : k ≤ k') : t.logAfter k <+: t.logAfter k' :=
+  logAfter_mono t h
+
+example : (iterT menuEnv (.filter 3 (.keepMod 2 0) (.src [.int 1, .int 2, .int 3, .int 4]))).logAfter 1
+    = [⟨3, .int 1⟩, ⟨3, .int 2⟩] := rfl
+
+/-- once every result has been consumed, only the calls after the last `yield` are outstanding -/
+theorem C08_logAfter_all (t : TStream) {k : Nat} (h : t.chunks.length ≤ k) :
+    t.logAfter k ++ t.tail = t.fullLog :=
+  logAfter_all t h
+
+example : (iterT menuEnv (.filter 3 (.keepMod 2 0) (.src [.int 1, .int 2, .int 3]))).tail = [⟨3, .int 3⟩] := rfl
+
+/-! ## 2. Erasure: forgetting the log gives the untraced (Layer A) stream of each stage -/
+
+/-- `map`: the traced stage yields what `Stream.mapMAux` yields and ends the same way -/
+theorem C08_erase_map (ρ : Env) (sid : Nat) (f : FnSym) (cs : List (Log × Val)) (tl : Log) (e : Option Err) :
+    (mapT ρ sid f cs tl e).erase = Stream.mapMAux (ρ.fn f) (cs.map (·.2)) e :=
+  erase_map ρ sid f cs tl e
+
+example : (mapT menuEnv 1 (.raiseIfMod 3 0 .userA) [([], .int 1), ([], .int 3), ([], .int 4)] [] none).erase
+    = ⟨[.int 1], some .userA⟩ := rfl
+
+/-- `filter` -/
+theorem C08_erase_filter (ρ : Env) (sid : Nat) (f : PredSym) (cs : List (Log × Val)) (pending tl : Log)
+    (e : Option Err) :
+    (filterT ρ sid f cs pending tl e).erase = Stream.filterMAux (ρ.pred f) (cs.map (·.2)) e :=
+  erase_filter ρ sid f cs pending tl e
+
+example : (filterT menuEnv 1 (.keepMod 2 0) [([], .int 1), ([], .int 2), ([], .int 4)] [] [] none).erase
+    = ⟨[.int 2, .int 4], none⟩ := rfl
+
+/-- `unbatch` -/
+theorem C08_erase_unbatch (cs : List (Log × Val)) (pending tl : Log) (e : Option Err) :
+    (unbatchT cs pending tl e).erase = unbatchAux (cs.map (·.2)) e :=
+  erase_unbatch cs pending tl e
+
+example : (unbatchT [([⟨1, .int 0⟩], .list [.int 1, .int 2]), ([], .list []), ([⟨1, .int 5⟩], .tup [.int 3])] [] [] none).erase
+    = ⟨[.int 1, .int 2, .int 3], none⟩ := rfl
+
+/-- `concatenate` -/
+theorem C08_erase_concat (a b : TStream) : (appendT a b).erase = a.erase.append b.erase :=
+  erase_append a b
+
+example : (appendT ⟨[([], .int 1)], [⟨1, .int 9⟩], none⟩ ⟨[([⟨2, .int 0⟩], .int 2)], [], some .userA⟩).erase
+    = ⟨[.int 1, .int 2], some .userA⟩ := rfl
+
+/-- `batch`, for any partially collected batch `cur` (and any `n`, also `n = 0`): the traced loop yields the
+    groups of `chunkAux`; when the input ends with an error a started group is not handed out -/
+theorem C08_erase_batch_cur (n : Nat) (dl : Bool) (cs : List (Log × Val)) (cur : List Val) (lg tl : Log)
+    (e : Option Err) :
+    (batchT n dl cs cur lg tl e).erase =
+      match e with
+      | none => ⟨(chunkAux n dl (cs.map (·.2)) cur).map Val.list, none⟩
+      | some er => ⟨(chunkAux n true (cs.map (·.2)) cur).map Val.list, some er⟩ :=
+  erase_batch_gen n dl cs cur lg tl e
+
+/-- `batch` (the hypothesis `1 ≤ n` is what the library asserts; the proof does not need it) -/
+theorem C08_erase_batch (n : Nat) (dl : Bool) (cs : List (Log × Val)) (tl : Log) (e : Option Err)
+    (_hn : 1 ≤ n) :
+    (batchT n dl cs [] [] tl e).erase = batchStream n dl ⟨cs.map (·.2), e⟩ := by
+  rw [erase_batch_gen]
+  cases e <;> rfl
+
+example : (batchT 2 false [([], .int 1), ([], .int 2), ([], .int 3)] [] [] [] none).erase
+    = ⟨[.list [.int 1, .int 2], .list [.int 3]], none⟩ := rfl
+
+/-- a source yields its elements -/
+theorem C08_erase_src (ρ : Env) (xs : List Val) : (iterT ρ (.src xs)).erase = ⟨xs, none⟩ := by
+  simp [iterT, TStream.erase, List.map_map, Function.comp_def]
+
+example : (iterT menuEnv (.src [.int 1, .int 2])).erase = ⟨[.int 1, .int 2], none⟩ := rfl
+
+/-! ## 3. Conservation of the log: a stage neither loses nor invents calls -/
+
+/-- `map` applies its function to a PREFIX of its input sequence: to each input example at most once, in
+    input order. -/
+theorem C08_log_map (ρ : Env) (sid : Nat) (f : FnSym) (cs : List (Log × Val)) (tl : Log) (e : Option Err)
+    (hf : ∀ c ∈ (cs.map (·.1)).flatten ++ tl, c.stage ≠ sid) :
+    ((mapT ρ sid f cs tl e).fullLog.filter (·.stage == sid)).map (·.arg) <+: cs.map (·.2) := by
+  have := log_map_exact ρ sid f cs tl e hf
+  unfold sidArgs at this
+  rw [this]
+  exact List.take_prefix _ _
+
+/-- exact form: a complete iteration applies the function to the inputs of all results and to the one input
+    after them, if there is one (the example on which the function raised) -/
+theorem C08_log_map_exact (ρ : Env) (sid : Nat) (f : FnSym) (cs : List (Log × Val)) (tl : Log) (e : Option Err)
+    (hf : ∀ c ∈ (cs.map (·.1)).flatten ++ tl, c.stage ≠ sid) :
+    ((mapT ρ sid f cs tl e).fullLog.filter (·.stage == sid)).map (·.arg) =
+      (cs.map (·.2)).take ((mapT ρ sid f cs tl e).chunks.length + 1) :=
+  log_map_exact ρ sid f cs tl e hf
+
+/-- when the stage itself did not raise — the iteration ended without error, or every input produced a
+    result — the function was applied to every input exactly once -/
+theorem C08_log_map_total (ρ : Env) (sid : Nat) (f : FnSym) (cs : List (Log × Val)) (tl : Log) (e : Option Err)
+    (hf : ∀ c ∈ (cs.map (·.1)).flatten ++ tl, c.stage ≠ sid)
+    (h : (mapT ρ sid f cs tl e).err = none ∨ (mapT ρ sid f cs tl e).chunks.length = cs.length) :
+    ((mapT ρ sid f cs tl e).fullLog.filter (·.stage == sid)).map (·.arg) = cs.map (·.2) := by
+  have hl : (mapT ρ sid f cs tl e).chunks.length = cs.length := by
+    rcases h with h | h
+    · exact map_err_none ρ sid f cs tl e h
+    · exact h
+  rw [C08_log_map_exact ρ sid f cs tl e hf, hl]
+  exact List.take_of_length_le (by simp)
+
+/-- the calls of all OTHER stages pass through `map` untouched, up to the point where `map` stopped
+    (no freshness needed), and completely when the iteration ended without error -/
+theorem C08_log_map_others (ρ : Env) (sid : Nat) (f : FnSym) (cs : List (Log × Val)) (tl : Log) (e : Option Err) :
+    (mapT ρ sid f cs tl e).fullLog.filter (·.stage != sid) <+:
+        ((cs.map (·.1)).flatten ++ tl).filter (·.stage != sid) ∧
+    ((mapT ρ sid f cs tl e).err = none →
+      (mapT ρ sid f cs tl e).fullLog.filter (·.stage != sid) =
+        ((cs.map (·.1)).flatten ++ tl).filter (·.stage != sid)) :=
+  ⟨log_map_others ρ sid f cs tl e, log_map_others_eq ρ sid f cs tl e⟩
+
+example : (mapT menuEnv 1 (.raiseIfMod 3 0 .userA)
+      [([⟨0, .int 10⟩], .int 1), ([⟨0, .int 30⟩], .int 3), ([⟨0, .int 40⟩], .int 4)] [] none).fullLog
+    = [⟨0, .int 10⟩, ⟨1, .int 1⟩, ⟨0, .int 30⟩, ⟨1, .int 3⟩] := rfl
+
+/-- `filter` applies its predicate to a PREFIX of its input sequence (each example at most once, in order);
+    to all of it when the iteration ended without error -/
+theorem C08_log_filter (ρ : Env) (sid : Nat) (f : PredSym) (cs : List (Log × Val)) (tl : Log) (e : Option Err)
+    (hf : ∀ c ∈ (cs.map (·.1)).flatten ++ tl, c.stage ≠ sid) :
+    ((filterT ρ sid f cs [] tl e).fullLog.filter (·.stage == sid)).map (·.arg) <+: cs.map (·.2) ∧
+    ((filterT ρ sid f cs [] tl e).err = none →
+      ((filterT ρ sid f cs [] tl e).fullLog.filter (·.stage == sid)).map (·.arg) = cs.map (·.2)) := by
+  constructor
+  · simpa [sidArgs] using log_filter_gen ρ sid f cs [] tl e hf
+  · intro he
+    simpa [sidArgs] using log_filter_eq_gen ρ sid f cs [] tl e hf he
+
+example : (filterT menuEnv 2 (.raiseIfMod 3 0 .userB) [([], .int 1), ([], .int 3), ([], .int 4)] [] [] none).fullLog
+    = [⟨2, .int 1⟩, ⟨2, .int 3⟩] := rfl
+
+/-! ## 4. No look-ahead -/
+
+/-- `map`: after `k` results the function has been applied to exactly the first `k` inputs — not one more -/
+theorem C08_no_lookahead_map (ρ : Env) (sid : Nat) (f : FnSym) (cs : List (Log × Val)) (tl : Log) (e : Option Err)
+    (hf : ∀ c ∈ (cs.map (·.1)).flatten ++ tl, c.stage ≠ sid) (k : Nat) :
+    (((mapT ρ sid f cs tl e).logAfter k).filter (·.stage == sid)).map (·.arg) =
+      (cs.map (·.2)).take (min k (mapT ρ sid f cs tl e).chunks.length) :=
+  no_lookahead_map ρ sid f cs tl e hf k
+
+example : ((mapT menuEnv 1 (.add 1) [([], .int 1), ([], .int 2), ([], .int 3)] [] none).logAfter 1)
+    = [⟨1, .int 1⟩] := rfl
+
+/-- `filter`: after `k` results the predicate has been applied to a prefix of the inputs (i) whose accepted
+    elements are exactly the `k` results handed out (ii) and which ends with the `k`-th result (iii): the
+    predicate has run up to and including the `k`-th accepted input and not beyond.
+    `accepted ρ f v` means `ρ.pred f v = .ok true`. -/
+theorem C08_no_lookahead_filter (ρ : Env) (sid : Nat) (f : PredSym) (cs : List (Log × Val)) (tl : Log)
+    (e : Option Err) (hf : ∀ c ∈ (cs.map (·.1)).flatten ++ tl, c.stage ≠ sid) (k : Nat) :
+    let t := filterT ρ sid f cs [] tl e
+    let args := ((t.logAfter k).filter (·.stage == sid)).map (·.arg)
+    args <+: cs.map (·.2) ∧
+    args.filter (accepted ρ f) = (t.chunks.take k).map (·.2) ∧
+    (∀ j, k = j + 1 → j < t.chunks.length → args.getLast? = (t.chunks[j]?).map (·.2)) := by
+  refine ⟨?_, ?_, ?_⟩
+  · have h1 := sidArgs_prefix sid (logAfter_prefix_fullLog (filterT ρ sid f cs [] tl e) k)
+    have h2 := log_filter_gen ρ sid f cs [] tl e hf
+    simpa [sidArgs] using h1.trans h2
+  · exact filter_accepted_gen ρ sid f cs [] tl e hf (by simp) k
+  · intro j hj hlt
+    subst hj
+    exact filter_last_gen ρ sid f cs [] tl e hf j hlt
+
+example : ((filterT menuEnv 2 (.keepMod 2 0) [([], .int 1), ([], .int 2), ([], .int 3), ([], .int 4), ([], .int 5)]
+      [] [] none).logAfter 1) = [⟨2, .int 1⟩, ⟨2, .int 2⟩] := rfl
+example : ((filterT menuEnv 2 (.keepMod 2 0) [([], .int 1), ([], .int 2), ([], .int 3), ([], .int 4), ([], .int 5)]
+      [] [] none).logAfter 2) = [⟨2, .int 1⟩, ⟨2, .int 2⟩, ⟨2, .int 3⟩, ⟨2, .int 4⟩] := rfl
+
+/-! ## 5. `batch` is at most one batch ahead -/
+
+/-- consuming `k` batches has touched exactly the first `k * n` inputs (`k` up to the number of full
+    batches): chunk `j` holds the calls of the inputs `j*n … j*n+n-1` and nothing else -/
+theorem C08_batch_chunk (n : Nat) (dl : Bool) (cs : List (Log × Val)) (tl : Log) (e : Option Err)
+    (hn : 1 ≤ n) (k : Nat) (hk : k * n ≤ cs.length) :
+    (batchT n dl cs [] [] tl e).logAfter k = ((cs.take (k * n)).map (·.1)).flatten :=
+  batch_chunk n dl cs tl e hn k hk
+
+example : ((batchT 2 false [([⟨1, .int 1⟩], .int 1), ([⟨1, .int 2⟩], .int 2), ([⟨1, .int 3⟩], .int 3),
+      ([⟨1, .int 4⟩], .int 4), ([⟨1, .int 5⟩], .int 5)] [] [] [] none).logAfter 1)
+    = [⟨1, .int 1⟩, ⟨1, .int 2⟩] := rfl
+
+/-! ## 6. The buffer-local shuffle is exactly `bs - 1` inputs ahead -/
+
+/-- Exact form of the look-ahead of `LocalShuffleDataset.__iter__`: once `k ≥ 1` results have been handed out
+    by the loop (so `k + bs - 1 ≤ cs.length`, the first `k` drawn positions exist and are valid buffer
+    positions) exactly the first `k + bs - 1` inputs have been pulled. Written with `k + 1` for `k`. -/
+theorem C08_local_lookahead (bs : Nat) (cs : List (Log × Val)) (choices final : List Nat) (tl : Log)
+    (e : Option Err) (hbs : 1 ≤ bs) (k : Nat) (hk : k + bs ≤ cs.length) (hc : k + 1 ≤ choices.length)
+    (hv : ∀ c ∈ choices.take (k + 1), c < bs) :
+    (localT bs cs [] [] choices final tl e).logAfter (k + 1) = ((cs.take (k + 1 + bs - 1)).map (·.1)).flatten := by
+  have := local_gen bs cs [] [] choices final tl e (by simp; omega) k (by simpa using hk) hc hv
+  rw [this]
+  have : k + 1 + bs - 1 = k + bs := by omega
+  simp [this]
+
+example : ((localT 3 [([⟨1, .int 1⟩], .int 1), ([⟨1, .int 2⟩], .int 2), ([⟨1, .int 3⟩], .int 3),
+      ([⟨1, .int 4⟩], .int 4), ([⟨1, .int 5⟩], .int 5)] [] [] [2, 0, 1] [0, 1] [] none).logAfter 1)
+    = [⟨1, .int 1⟩, ⟨1, .int 2⟩, ⟨1, .int 3⟩] := rfl
+
+/-- the bound `k + bs - 1 ≤ cs.length` is needed: results of the final flush (here the 2nd of 3 inputs with
+    `bs = 3`) come after the input has ended, so their log also holds the input's trailing calls — it is not
+    `take (k + bs - 1)` of the input chunks -/
+example : ((localT 3 [([⟨1, .int 1⟩], .int 1), ([⟨1, .int 2⟩], .int 2), ([⟨1, .int 3⟩], .int 3)]
+      [] [] [2] [0, 1] [⟨1, .int 9⟩] none).logAfter 2)
+    = [⟨1, .int 1⟩, ⟨1, .int 2⟩, ⟨1, .int 3⟩, ⟨1, .int 9⟩] := rfl
+
+/-! ## 7. The footprint of indexing -/
+
+/-- `ds.map(f)[i]` fetches `ds[i]` and applies `f` once, to that one example -/
+theorem C08_getitem_map (ρ : Env) (sid : Nat) (f : FnSym) (p : TPipe) (i : Nat) :
+    getT ρ (.map sid f p) i =
+      (let (lg, r) := getT ρ p i
+       match r with
+       | .ok v => (lg ++ [⟨sid, v⟩], ρ.fn f v)
+       | .error e => (lg, .error e)) := by
+  rw [getT]
+  rcases getT ρ p i with ⟨lg, r⟩
+  cases r <;> rfl
+
+/-- hence the function of a `map` stage is applied exactly once by `ds[i]`, to the input example `i`
+    (and not at all when fetching that example failed) -/
+theorem C08_getitem_map_once (ρ : Env) (sid : Nat) (f : FnSym) (p : TPipe) (i : Nat)
+    (hf : ∀ c ∈ (getT ρ p i).1, c.stage ≠ sid) :
+    (((getT ρ (.map sid f p) i).1).filter (·.stage == sid)).map (·.arg) =
+      match (getT ρ p i).2 with
+      | .ok v => [v]
+      | .error _ => [] := by
+  rw [getT]
+  rcases h : getT ρ p i with ⟨lg, r⟩
+  rw [h] at hf
+  have := sidArgs_fresh sid lg hf
+  unfold sidArgs at this
+  cases r <;> simp [this]
+
+example : getT menuEnv (.map 1 (.add 1) (.map 0 (.add 10) (.src [.int 1, .int 2, .int 3]))) 1
+    = ([⟨0, .int 2⟩, ⟨1, .int 12⟩], .ok (.int 13)) := by simp [getT, menuEnv, menuFn]
+
+/-- indexing a source calls nothing -/
+theorem C08_getitem_src (ρ : Env) (xs : List Val) (i : Nat) : (getT ρ (.src xs) i).1 = [] := by
+  rw [getT]
+
+example : getT menuEnv (.src [.int 1]) 5 = ([], .error .indexError) := by simp [getT]
+
+/-- indexing a slice touches the selected position only -/
+theorem C08_getitem_slice (ρ : Env) (sel : List Nat) (p : TPipe) (i : Nat) :
+    getT ρ (.slice sel p) i =
+      match sel[i]? with
+      | some j => getT ρ p j
+      | none => ([], .error .indexError) := by
+  rw [getT]
+  cases sel[i]? <;> rfl
+
+example : getT menuEnv (.slice [2, 0] (.map 1 (.add 1) (.src [.int 1, .int 2, .int 3]))) 0
+    = ([⟨1, .int 3⟩], .ok (.int 4)) := by simp [getT, menuEnv, menuFn]
+
+/-- iterating a slice: the chunks are exactly the `ds[j]` footprints of the selected positions, in selection
+    order -/
+theorem C08_slice_iter_chunks (ρ : Env) (p : TPipe) (sel : List Nat) :
+    (sliceT ρ p sel).chunks.map (·.1) =
+      (sel.take (sliceT ρ p sel).chunks.length).map (fun j => (getT ρ p j).1) :=
+  slice_iter_chunks ρ p sel
+
+/-- … and each chunk is the complete `ds[j]` outcome (calls and value) -/
+theorem C08_slice_iter_full (ρ : Env) (p : TPipe) (sel : List Nat) :
+    (sliceT ρ p sel).chunks.map (fun c => (c.1, (Except.ok c.2 : Res Val))) =
+      (sel.take (sliceT ρ p sel).chunks.length).map (getT ρ p) :=
+  slice_iter_full ρ p sel
+
+example : (iterT menuEnv (.slice [2, 0] (.map 1 (.add 1) (.src [.int 1, .int 2, .int 3])))).chunks
+    = [([⟨1, .int 3⟩], .int 4), ([⟨1, .int 1⟩], .int 2)] := by simp [iterT, sliceT, getT, menuEnv, menuFn]
+
+/-! ## 8. Construction is silent; calls arise in `map`/`filter` stages only -/
+
+/-- Iterating a bare source performs no call.  Calls enter a log only in `mapT`, `filterT` and the `map`
+    case of `getT` (see `C08_calls_only_from_stages`); every other stage only moves the chunks of its input
+    around.  Constructing a pipeline is not an operation of this model at all: that the call log of the real
+    library is empty after construction is verified by the correspondence check on the real code. -/
+theorem C08_construction_silent (ρ : Env) (xs : List Val) : (iterT ρ (.src xs)).fullLog = [] := by
+  rw [iterT]
+  simp only [TStream.fullLog, flatten_map_fst_nil, List.append_nil]
+
+example : (iterT menuEnv (.batch 2 false (.src [.int 1, .int 2, .int 3]))).fullLog = [] := rfl
+
+/-- Nothing is invented, for whole pipelines: every call of an iteration, and of an index access, carries the
+    identifier of a `map` or `filter` stage of that pipeline (`stages p` lists them). -/
+theorem C08_calls_only_from_stages (ρ : Env) (p : TPipe) :
+    (∀ c ∈ (iterT ρ p).fullLog, c.stage ∈ stages p) ∧ (∀ i, ∀ c ∈ (getT ρ p i).1, c.stage ∈ stages p) :=
+  provenance ρ p
+
+/-- a pipeline without `map`/`filter` stages never calls anything, however it is consumed -/
+theorem C08_no_stage_no_call (ρ : Env) (p : TPipe) (h : stages p = []) :
+    (iterT ρ p).fullLog = [] ∧ ∀ i, (getT ρ p i).1 = [] := by
+  have := provenance ρ p
+  rw [h] at this
+  constructor
+  · exact List.eq_nil_iff_forall_not_mem.2 fun c hc => by simpa using this.1 c hc
+  · intro i
+    exact List.eq_nil_iff_forall_not_mem.2 fun c hc => by simpa using this.2 i c hc
+
+example : stages (.zip (.unbatch (.batch 2 true (.src [.int 1]))) (.slice [0] (.src [.int 2]))) = [] := rfl
+
+/-- No look-ahead for a `map` stage on top of ANY pipeline whose stages are numbered apart from it: after `k`
+    results of `p.map(f)` the function `f` has been applied to exactly the first `k` results of `p`. -/
+theorem C08_no_lookahead_map_pipe (ρ : Env) (sid : Nat) (f : FnSym) (p : TPipe) (hs : sid ∉ stages p) (k : Nat) :
+    (((iterT ρ (.map sid f p)).logAfter k).filter (·.stage == sid)).map (·.arg) =
+      (iterT ρ p).erase.vals.take (min k (iterT ρ (.map sid f p)).chunks.length) := by
+  rw [iterT]
+  refine C08_no_lookahead_map ρ sid f _ _ _ (fun c hc h => hs ?_) k
+  rw [← h]
+  exact (provenance ρ p).1 c hc
+
+example : ((iterT menuEnv (.map 5 (.add 1) (.filter 4 (.keepMod 2 0) (.src [.int 1, .int 2, .int 3, .int 4])))).logAfter 1)
+    = [⟨4, .int 1⟩, ⟨4, .int 2⟩, ⟨5, .int 2⟩] := rfl
 
 end LazyDs
